@@ -29,6 +29,7 @@ def main(argv):
         if prop not in CHECKS:
             print("no check for %s" % prop, file=sys.stderr)
             return 2
+        os.environ["VERIF_TIER_RUNNING"] = tier
         mod = importlib.import_module(CHECKS[prop])
         if hasattr(mod, "run"):
             return mod.run(tier, seed)
